@@ -14,6 +14,37 @@ import (
 // targets that are not objects.
 var Scalars = map[string]any{"s": "str", "n": 1.5, "b": true, "a": []any{1.0, map[string]any{"title": "in-array"}}}
 
+// OddIndexTails are appended to a healthy pointer to make it dangling through an index-like token.
+var OddIndexTails = []string{"/items/-1", "/allOf/-1", "/-1", "/-", "/items/-", "/items/99999999999999999999", "/allOf/18446744073709551616",
+	"/enum/-1", "/required/-1", "/parameters/-1", "/type/-1", "/anyOf/-2", "/oneOf/-", "/items/-9223372036854775808", "/tags/-1", "/schemes/-1"}
+
+// OddIndexes are index-like tokens that designate nothing in any list.
+var OddIndexes = []string{"/-1", "/-", "/-2", "/99999999999999999999", "/-9223372036854775808", "/18446744073709551616", "/-1/title"}
+
+// ListMembers returns the pointers (relative to n, at most depth members deep, not through a `$ref` holder)
+// of the members that are lists or are called "items".
+func ListMembers(n any, at string, depth int, acc []string) []string {
+	m, ok := n.(map[string]any)
+	if !ok || depth == 0 || len(acc) > 400 {
+		return acc
+	}
+	if _, isRef := m["$ref"].(string); isRef {
+		return acc
+	}
+	keys := make([]string, 0, len(m))
+	for k := range m {
+		keys = append(keys, k)
+	}
+	sort.Strings(keys)
+	for _, k := range keys {
+		if _, isArr := m[k].([]any); isArr || k == "items" {
+			acc = append(acc, at+"/"+model.EscTok(k))
+		}
+		acc = ListMembers(m[k], at+"/"+model.EscTok(k), depth-1, acc)
+	}
+	return acc
+}
+
 // Break injects faults into a well-formed graph: each `$ref` is, with
 // probability pct/1000, rewritten to a missing pointer, a missing document or a
 // target that is a string, number, boolean or array; each non-root document is
@@ -24,8 +55,8 @@ func Break(t *rapid.T, c GraphCase, permille int, refusePct int) (GraphCase, []s
 	// are dangling there unless that document happens to have the same member (the model decides)
 	foreign := map[model.Kind][]string{}
 	kindAt := map[model.Pos]model.Kind{}
+	g := c.Graph()
 	{
-		g := c.Graph()
 		var all []string
 		for u := range c.Docs {
 			all = append(all, u)
@@ -45,6 +76,12 @@ func Break(t *rapid.T, c GraphCase, permille int, refusePct int) (GraphCase, []s
 		urls = append(urls, u)
 	}
 	sort.Strings(urls)
+	// a third of the broken graphs carry one kind of fault only, densely: every kind then has cases of its own
+	focus := -1
+	if Pct(t, "focused faults", 33) {
+		focus = Uniform(t, "focus", 16)
+		permille = permille*4 + 100
+	}
 	for _, u := range urls {
 		var v any
 		_ = json.Unmarshal([]byte(c.Docs[u]), &v)
@@ -54,7 +91,11 @@ func Break(t *rapid.T, c GraphCase, permille int, refusePct int) (GraphCase, []s
 			case map[string]any:
 				if r, ok := m["$ref"].(string); ok {
 					if Permille(t, "break", permille) {
-						switch Uniform(t, "fault", 14) {
+						kind := focus
+						if kind < 0 {
+							kind = Uniform(t, "fault", 16)
+						}
+						switch kind {
 						case 0:
 							m["$ref"] = r + "/nowhere"
 						case 1:
@@ -78,6 +119,20 @@ func Break(t *rapid.T, c GraphCase, permille int, refusePct int) (GraphCase, []s
 							if tp, err := model.Resolve(u, r); err == nil {
 								if k, known := kindAt[tp]; known && len(foreign[k]) > 0 {
 									m["$ref"] = foreign[k][Uniform(t, "foreign", len(foreign[k]))]
+								}
+							}
+						case 14, 15:
+							// tokens that look like array indexes but designate nothing under any reading: negative,
+							// the past-the-end "-", beyond every integer type (typed lookups parse them themselves)
+							if strings.Contains(r, "#") {
+								m["$ref"] = r + OddIndexTails[Uniform(t, "oddindex", len(OddIndexTails))]
+								// preferably below a member that the target really has and that is (or may be) a list
+								if tp, err := model.Resolve(u, r); err == nil && Pct(t, "aimed", 70) {
+									if tn, err := g.Get(tp); err == nil {
+										if lists := ListMembers(tn, "", 3, nil); len(lists) > 0 {
+											m["$ref"] = r + lists[Uniform(t, "list", len(lists))] + OddIndexes[Uniform(t, "idx", len(OddIndexes))]
+										}
+									}
 								}
 							}
 						case 8, 9, 10, 11:
